@@ -84,6 +84,9 @@ type c16Env struct {
 	// deepening 2 (c16_deep2.go)
 	pageFlags bool              // pf=1: translation replies carry scrambled page attributes
 	lied      map[string]uint64 // "pid/vpage" -> physical page an untruthful reply (`xl`) carried
+	prevDone  map[string][]string // completed transactions at the end of the previous tick
+	nAck      int                 // acknowledgements sent through the control port
+	nCtlTaken int                 // commands taken from the control port
 }
 
 type c16Hook struct {
@@ -112,6 +115,10 @@ func (h *c16Hook) Func(ctx sim.HookCtx) {
 		case "ctl":
 			e.ev = append(e.ev, "K")
 			e.afterK = true
+			e.nAck++
+			if cm, ok := ctx.Item.(*mem.ControlMsg); !ok || !cm.NotifyDone || cm.DiscardTransations || cm.Restart || cm.Dst != "Ctl" {
+				e.r.Failf("C16.ctl.ack-malformed", e.line, "acknowledgement #%d is not a NotifyDone message to the controller", e.nAck)
+			}
 			if len(e.ctlPending) > 0 && e.ctlPending[0] == "f" {
 				e.epoch++
 			}
@@ -131,6 +138,15 @@ func (h *c16Hook) Func(ctx sim.HookCtx) {
 			e.ev = append(e.ev, "X"+numOf(e.tidNum, rsp.RespondTo))
 		case "ctl":
 			e.ev = append(e.ev, "C")
+			e.nCtlTaken++
+			e.r.Checked("ctl")
+			if e.nAck != e.nCtlTaken {
+				e.r.Failf("C16.ctl.ack-count", e.line, "command #%d taken with %d acknowledgements sent so far", e.nCtlTaken, e.nAck)
+			}
+			if len(e.ctlPending) > 0 && e.ctlPending[0] == "s" &&
+				(e.top.PeekIncoming() != nil || e.bot.PeekIncoming() != nil || e.tr.PeekIncoming() != nil) {
+				e.r.Failf("C16.ctl.restart-leftover", e.line, "restart #%d taken with a message left in an incoming buffer", e.nCtlTaken)
+			}
 			if len(e.ctlPending) > 0 {
 				e.ctlPending = e.ctlPending[1:]
 			}
@@ -363,8 +379,54 @@ func newC16Env(r *Run, line string, w int, lg, salt uint64) *c16Env {
 	return e
 }
 
+// coalesceOracle (second deepening), evaluated on the real bookkeeping after every tick:
+// the transactions still waiting for their translation have pairwise distinct (PID, page)
+// (at_coalesce_complete); all accesses waiting in one transaction have one PID and one page
+// (at_coalesced_same_page); a completed transaction's waiting list only shrinks from the front
+// (at_done_tx_closed).
+func (e *c16Env) coalesceOracle(txs []addresstranslator.VerifC16Tx) {
+	e.r.Checked("coalesce")
+	seen := map[string]string{}
+	nowDone := map[string][]string{}
+	for _, t := range txs {
+		key := ""
+		for i, id := range t.Waiting {
+			a := e.accByID[id]
+			if a == nil {
+				continue
+			}
+			k := fmt.Sprintf("%d/%x", a.pid, e.pageOf(a.vaddr))
+			if i == 0 {
+				key = k
+			} else if k != key {
+				e.r.Failf("C16.coalesce.mixed", e.line, "transaction %s holds accesses of %s and %s", numOf(e.tidNum, t.TranslationReqID), key, k)
+			}
+		}
+		if !t.Done && key != "" {
+			if o, dup := seen[key]; dup {
+				e.r.Failf("C16.coalesce.duplicate-lookup", e.line, "lookups %s and %s both outstanding for (pid/page) %s", o, numOf(e.tidNum, t.TranslationReqID), key)
+			}
+			seen[key] = numOf(e.tidNum, t.TranslationReqID)
+		}
+		if t.Done {
+			nowDone[t.TranslationReqID] = t.Waiting
+			if old, was := e.prevDone[t.TranslationReqID]; was {
+				ok := len(t.Waiting) <= len(old)
+				for i := 0; ok && i < len(t.Waiting); i++ {
+					ok = t.Waiting[len(t.Waiting)-1-i] == old[len(old)-1-i]
+				}
+				if !ok {
+					e.r.Failf("C16.coalesce.into-done", e.line, "completed transaction %s: waiting list %d -> %d entries, not a suffix", numOf(e.tidNum, t.TranslationReqID), len(old), len(t.Waiting))
+				}
+			}
+		}
+	}
+	e.prevDone = nowDone
+}
+
 func (e *c16Env) stateSig() string {
 	fl, txs, infl := e.comp.VerifC16State()
+	e.coalesceOracle(txs)
 	ts := []string{}
 	for _, t := range txs {
 		d := 0
@@ -844,6 +906,16 @@ func runC16Scenario(r *Run, ops []string, closed bool, kind string) *c16Env {
 	r.CountN("accesses.accepted", e.nRecv)
 	r.CountN("accesses.forwarded", e.nFwd)
 	r.CountN("accesses.answered", e.nAns)
+	// ---- oracle: one acknowledgement per command taken; in a closed conforming run every command delivered is taken
+	if e.fault == "" {
+		r.Checked("ctl.end")
+		if e.nAck != e.nCtlTaken {
+			r.Failf("C16.ctl.ack-count", line, "%d commands taken, %d acknowledgements sent", e.nCtlTaken, e.nAck)
+		}
+		if closed && !e.badRestart && w > 0 && e.nCtlTaken != len(e.ctlDeliv) {
+			r.Failf("C16.ctl.unacknowledged", line, "%d commands delivered, %d taken and acknowledged", len(e.ctlDeliv), e.nCtlTaken)
+		}
+	}
 	// ---- oracle: nothing is lost when the environment keeps answering and draining
 	fl, txs, infl := e.comp.VerifC16State()
 	if closed && !e.badRestart && e.fault == "" && w > 0 {
